@@ -7,7 +7,7 @@ use crate::harness::Harness;
 use proptest::prelude::*;
 use svmodel::Kind;
 
-const KINDS: [Kind; 5] = [Kind::Instantiate, Kind::Exec, Kind::Query, Kind::Sudo, Kind::Migrate];
+const KINDS: [Kind; 6] = [Kind::Instantiate, Kind::Exec, Kind::Query, Kind::Sudo, Kind::Migrate, Kind::Reply];
 
 pub fn kind_of_id(id: &str) -> &str {
     id.split("::").nth(1).unwrap_or("")
@@ -34,10 +34,7 @@ pub fn run(p: &Prog, cfg: &Cfg, rep: &mut Report) {
             |(args, sel): &(Vec<Value>, Value), tally| {
                 let mut k2 = KINDS[sel["k2"].as_u64().unwrap() as usize];
                 if k2 == k1 {
-                    k2 = KINDS[(k2.idx() + 1) % KINDS.len()];
-                    if k2 == Kind::Reply {
-                        k2 = Kind::Instantiate;
-                    }
+                    k2 = KINDS[(sel["k2"].as_u64().unwrap() as usize + 1) % KINDS.len()];
                 }
                 if k2 == k1 {
                     return Ok(());
@@ -81,5 +78,33 @@ pub fn run(p: &Prog, cfg: &Cfg, rep: &mut Report) {
         if !ok {
             return;
         }
+    }
+    // Reply documents sent to the other entry points
+    if p.entries.contains_key(&Kind::Reply) || p.mt_entries.contains_key(&Kind::Reply) {
+        let strat = (0usize..5, any::<bool>(), any::<u64>(), any::<bool>(), "[ -~]{0,10}")
+            .prop_map(|(k, mt, id, ok, text)| json!({"k2": k, "mt": mt, "id": id % 4, "ok": ok, "text": text}))
+            .boxed();
+        run_cases(cfg, &p.model.id, "reply-docs", strat, rep, |sel: &Value, tally| {
+            let k2 = KINDS[sel["k2"].as_u64().unwrap() as usize];
+            let via_mt = sel["mt"].as_bool().unwrap();
+            let table = if via_mt { &p.mt_entries } else { &p.entries };
+            let Some(entry) = table.get(&k2) else { return Ok(()) };
+            let result = if sel["ok"].as_bool().unwrap() { json!({"ok": {"events": [], "data": null, "msg_responses": []}}) } else { json!({"error": sel["text"]}) };
+            let doc = json!({"id": sel["id"], "payload": "", "gas_used": 7, "result": result});
+            tally.class(&format!("pair:reply->{}", k2.attr()));
+            let mut harness = Harness::new(5);
+            match entry(&mut harness, doc.to_string().as_bytes()) {
+                Err(_) => Ok(()),
+                Ok(out) => {
+                    if let Some(bad) = out.log.iter().find(|r| kind_of_id(&r.id) != k2.attr()) {
+                        return Err(viol(format!("cross-kind:reply->{}", k2.attr()), "a handler ran for a message that arrived at the entry point of another kind", json!({"doc": doc, "sent_to": k2.ep(), "ran": bad.id})));
+                    }
+                    if !out.log.is_empty() {
+                        tally.nontrivial(&(&p.model.id, "reply", k2, doc.to_string()));
+                    }
+                    Ok(())
+                }
+            }
+        });
     }
 }
